@@ -481,20 +481,54 @@ def _oob_dev(heap, target, tdict, j):
 
 
 def _oob_inv(ctx):
+    """the tree may be stale at entry: the first weight read refreshes it (whole tree rewritten once), later reads find it fresh.
+    (a) while still stale no child so far was named in the targets (no read happened);  (b) once fresh, no child so far deviates - measured on
+    the current (refreshed) weights."""
     st, E = ctx.cur, ctx.entry.heap
     target = ctx.entry.locals["target"]
     self = ctx.entry.locals["self"]
     tdict = ctx.entry.locals["targets"].ref
     tol = E.get(self, "tolerance")
     rt = E.get(target, "root")
-    out = [("tree-stays-fresh", Not(st.heap.get(rt, "stale")))]
+    stale_now = st.heap.get(rt, "stale")
+    h = st.heap
+    from pyvc.ext_frames import dict_has
+
+    def named(j):
+        c = E.list_at(target, "_childrenv", j)
+        return dict_has(E, tdict, E.get(c, "name").term)
 
     def quiet(j):
-        has, dev = _oob_dev(E, target, tdict, j)
+        has, dev = _oob_dev2(E, h, target, tdict, j)
         return Implies(has, Not(dev > tol))
 
-    out.append(("no-child-so-far-deviates", ForallInt(0, ctx.i, quiet, name="jq")))
-    return out
+    return [("while-stale-no-weight-was-read", ForallInt(0, ctx.i, lambda j: Implies(stale_now, Not(named(j))), name="jr")),
+            ("once-fresh-no-child-so-far-deviates", ForallInt(0, ctx.i, lambda j: Implies(Not(stale_now), quiet(j)), name="jq")),
+            ("a-fresh-tree-is-not-rewritten", Implies(Not(E.get(rt, "stale")), Not(stale_now)))]
+
+
+def _oob_dev2(E, h, target, tdict, j):
+    """deviation of child j measured on heap h (structure and targets from E)"""
+    from pyvc.ext_frames import dict_has, dict_get
+    from pyvc.dsl import absv
+
+    c = E.list_at(target, "_childrenv", j)
+    nm = E.get(c, "name")
+    t = dict_get(E, tdict, nm.term)
+    return dict_has(E, tdict, nm.term), absv((h.get(c, "_weight") - t) / t)
+
+
+def _oob_havoc(ctx):
+    target = ctx.entry.locals["target"]
+    E = ctx.entry.heap
+    rt = E.get(target, "root")
+    from .core_strat import update_modkeys
+
+    keys = list(update_modkeys()) + ["stale"]
+    for k in keys:
+        E.ensure(k)
+    # a refresh (root.update through the weight accessor) may happen in any iteration while the tree is still stale
+    return [(k, (lambda i: (lambda x: And(E.get(rt, "stale"), treeof_f(x) == rt.term)))) for k in keys]
 
 
 def _oob_on_iter(ctx, c):
@@ -516,7 +550,7 @@ def _oob_on_iter(ctx, c):
     st.assume(_zb(Implies(dict_has(E, tdict, nm.term), And(dict_get(E, tdict, nm.term).ne(0), Not(dsl.isnan(dict_get(E, tdict, nm.term)))))))
 
 
-OOBLOOP = LoopSpec(_oob_inv, on_iter=_oob_on_iter, name="children against their targets")
+OOBLOOP = LoopSpec(_oob_inv, havoc_heap=_oob_havoc, on_iter=_oob_on_iter, name="children against their targets")
 
 
 def verify_out_of_bounds(ex, contract, timeout_ms=30000):
@@ -546,7 +580,7 @@ def verify_out_of_bounds(ex, contract, timeout_ms=30000):
         target = args[0]
         E = st0.heap
         rt = E.get(target, "root")
-        st0.assume(And(target.term != dsl.NONE, target.term != self.term, rt.term != dsl.NONE, Not(E.get(rt, "stale")), Not(dsl.isnan(E.get(self, "tolerance")))))
+        st0.assume(And(target.term != dsl.NONE, target.term != self.term, rt.term != dsl.NONE, Not(dsl.isnan(E.get(self, "tolerance")))))
         for f in self_facts_light(E, target):
             st0.assume(_zb(f))
         E = st0.heap.copy()
@@ -563,8 +597,8 @@ def verify_out_of_bounds(ex, contract, timeout_ms=30000):
             fr.exits[kind] = fr.exits.get(kind, 0) + 1
             obligs.extend(st.obligs)
             if oc.kind == "raise":
-                if oc.exc == "<cut>":
-                    continue
+                if oc.exc in ("<cut>", "Exception"):
+                    continue   # "Exception": the refresh of a stale tree (root.update) may raise on its own account (its contract), not this algo
                 o = Oblig("%s/never-raises" % name, st.pc, False, "post", P13)
                 o.regions = [("C13-out-of-bounds-cash-branch-reads-targets.value", has_cash)]
                 obligs.append(o)
@@ -588,14 +622,14 @@ def verify_out_of_bounds(ex, contract, timeout_ms=30000):
                 from pyvc.dsl import absv
 
                 t = dict_get(E, tdict, nm.term)
-                obligs.append(Oblig("%s/true-only-for-a-held-target-beyond-the-tolerance" % name, st.pc,
-                                    And(dict_has(E, tdict, nm.term), E.get(c, "parent").term == target.term, absv((E.get(c, "_weight") - t) / t) > tol), "post", P13))
+                obligs.append(Oblig("%s/true-only-for-a-held-target-beyond-the-tolerance-on-refreshed-weights" % name, st.pc,
+                                    And(dict_has(E, tdict, nm.term), E.get(c, "parent").term == target.term, absv((st.heap.get(c, "_weight") - t) / t) > tol, Not(st.heap.get(rt, "stale"))), "post", P13))
             else:
-                def quiet(j):
-                    has, dev = _oob_dev(E, target, tdict, j)
-                    return Implies(has, Not(dev > tol))
+                def quiet(j, F=st.heap):
+                    has, dev = _oob_dev2(E, F, target, tdict, j)
+                    return Implies(has, And(Not(dev > tol), Not(F.get(rt, "stale"))))
 
-                o = Oblig("%s/false-only-when-no-held-target-deviates" % name, st.pc, And(Not(vb), ForallInt(0, n, quiet, name="jq")) if False else ForallInt(0, n, quiet, name="jq"), "post", P13)
+                o = Oblig("%s/false-only-when-no-held-target-deviates-on-refreshed-weights" % name, st.pc, And(Not(vb), ForallInt(0, n, quiet, name="jq")) if False else ForallInt(0, n, quiet, name="jq"), "post", P13)
                 o.schemas = list(st.ghost.get("schemas", []))
                 obligs.append(o)
                 obligs.append(Oblig("%s/after-a-quiet-loop-the-answer-is-False" % name, st.pc, Not(vb), "post", P13))
@@ -603,7 +637,7 @@ def verify_out_of_bounds(ex, contract, timeout_ms=30000):
             for key in sorted(st.heap.maps.keys()):
                 a, b = st.heap.maps[key], E.ensure(key)
                 if not map_same(a, b):
-                    obligs.append(Oblig("%s/writes-nothing:%s" % (name, key), st.pc, a.select(x) == b.select(x), "post", P13))
+                    obligs.append(Oblig("%s/a-fresh-tree-is-not-written:%s" % (name, key), st.pc, Implies(Not(E.get(rt, "stale")), a.select(x) == b.select(x)), "post", P13))
         s = z3.Solver()
         for p in st0.pc:
             s.add(p)
